@@ -12,6 +12,8 @@ CONSTANTS
   ShadowRejects = FALSE
   LeakBudgetFailure = FALSE
   LoopCapOff = FALSE
+  V6Set <- V6Off
+  DetachedFresh = FALSE
   Emit = FALSE
 SPECIFICATION SpecOne
 INVARIANTS NotDone TypeOK WithinBudget OverBudgetIsPrivate ShadowEqualsOff EnforceIsPrefix LocalBelowW
